@@ -46,6 +46,10 @@ PROPS = {
     "C09": dict(kind="prog", parts=[dict(target="comp", configs=["base", "dbg"])],
                 probes=dict(glob="targets/probes/*.cpp", configs=["base"]),
                 quick=q(6, 8000, 80), thorough=t(8, 100000, 80, 120), assumptions=COMMON_ASSUME),
+    "C11": dict(kind="prog", parts=[dict(target="obj", configs=["base", "dbg"])],
+                quick=q(6, 4000, 30), thorough=t(8, 60000, 30, 120), assumptions=COMMON_ASSUME),
+    "C20": dict(kind="prog", parts=[dict(target="obj", configs=["base", "dbg"])],
+                quick=q(6, 3000, 24), thorough=t(8, 40000, 24, 120), assumptions=COMMON_ASSUME),
     "C12": prog("hist", HIST3, q(4, 3000, 100), t(5, 40000, 160, 120), assumptions=COMMON_ASSUME),
     "C15": prog("hist", ["base", "dbg"], q(5, 3000, 100), t(8, 40000, 120, 120), assumptions=COMMON_ASSUME),
     "C19": custom(pure),
